@@ -36,7 +36,12 @@ theorem nlt_write_acc (lg lg' : Log) (n : Nat) (i : Rid) (a : A) (inbox : List P
     intro p'; rw [remFor_next]; rfl
   have hpne : p ≠ q.id := fun e => (open_nodup_of_mem a.reqs p i cs hnd hX).1 (e ▸ hko)
   apply nlt_upd lg lg' n i inbox _ (nextPc ops) a _ q.id h hnd ⟨p, i, .cells cs⟩ hX rfl
-    (by simp [idsR, cellsOfSt, hko]) _ rfl t hpc (fun _ _ e => by cases e) (fun _ e => by simp at e)
+    (by simp [idsR, cellsOfSt, hko]) _ rfl t hpc (fun _ _ e => by cases e)
+    (fun w' q' e => by
+      rcases e with e | e
+      · simp only [PC.emit.injEq, List.cons.injEq, Op.write.injEq] at e
+        exact Or.inr (Or.inr (by rw [e.1.2]))
+      · simp at e)
     (wOK_next _ ops h.wb) hki hkr ho
   · rcases h.req _ hX rfl with hr | ⟨v, e1, _, _⟩
     rotate_left
@@ -56,6 +61,32 @@ theorem nlt_write_acc (lg lg' : Log) (n : Nat) (i : Rid) (a : A) (inbox : List P
     cases cs with
     | nil => simp [linkedIds] at hl
     | cons c cs' => cases c <;> simp [markWritten] at e <;> split at e <;> simp at e
+
+/-- the action returned its input packet and the out-writer accepted it: the request itself is awaited on the writer -/
+theorem nlt_write_self_acc (lg lg' : Log) (n : Nat) (i : Rid) (a : A) (inbox : List Pkt) (w : Wid) (q : Pkt)
+    (h : NLt lg n i { inbox := inbox, pc := .emit [.write (some w) q] } a) (hnd : (ids a.reqs).Nodup)
+    (hX : (⟨q.id, i, .cells []⟩ : Req) ∈ a.reqs) (t : Tr lg lg' q.id) (hki : ∀ x ∈ inbox, x.id ≠ q.id)
+    (ho : ∀ id ∈ nlIdsT i { inbox := inbox, pc := .emit [.write (some w) q] } a,
+      aget lg'.owner id = aget lg.owner id) :
+    NLt lg' n i { inbox := inbox, pc := nextPc [] } (awrite a (some w) q.id (.pay q.pay) true).1 ∧
+    (awrite a (some w) q.id (.pay q.pay) true).1.wq = aset a.wq w (getL a.wq w ++ [q.id]) ∧
+    (awrite a (some w) q.id (.pay q.pay) true).2 = [] ∧
+    (awrite a (some w) q.id (.pay q.pay) true).1.reqs = updReq q.id (fun _ => .direct w) a.reqs := by
+  have hf := findReq_of_mem a.reqs _ hnd hX
+  have hres : awrite a (some w) q.id (.pay q.pay) true =
+      ({ a with reqs := updReq q.id (fun _ => .direct w) a.reqs, wq := aset a.wq w (getL a.wq w ++ [q.id]) }, []) := by
+    simp only [awrite, hf]
+  rw [hres]
+  refine ⟨?_, rfl, rfl, rfl⟩
+  apply nlt_upd lg lg' n i inbox _ (nextPc []) a _ q.id h hnd ⟨q.id, i, .cells []⟩ hX rfl (by simp [idsR])
+    (fun _ => .direct w) rfl t (fun _ => rfl) (fun _ _ e => by cases e)
+    (fun w' q' e => by
+      rcases e with e | e
+      · simp only [PC.emit.injEq, List.cons.injEq, Op.write.injEq, and_true] at e
+        exact Or.inr (Or.inl (by rw [e.2]))
+      · simp at e) trivial hki (fun y _ _ _ hm => by simp [remFor, remOps] at hm) ho
+  · exact Or.inl (by simp [ReqA, remFor, nextPc])
+  · intro e; cases e
 
 /-- after the update of the request list to `rs1`: answer the complete prefix of reader `r` if the request `p` is complete -/
 theorem nlt_afterFill (lg : Log) (n : Nat) (r : Rid) (th : Thread) (a : A) (rs1 : List Req) (p : Pid) (st1 : RSt)
